@@ -648,3 +648,7 @@ mod tests {
         assert_eq!(pool.len(), 0);
     }
 }
+
+#[cfg(kani)]
+#[path = "/verif/kani/rten/buffer_pool.rs"]
+mod verif_kani;
